@@ -22,8 +22,8 @@ RULE = ("(a) closure of the reachable states of TraceSymbolTable under {add_symb
         "rank files with different vocabularies x symbol numberings (every permutation of one rank's vocabulary with "
         "the others sorted or reversed; thorough: full products) x {sequential, virtual pool with every completion "
         "order and worker count} x every rank<->file assignment: rows decode to the file's strings; (c) corpus of "
-        "2-rank traces: result bundle of 10 getters identical across numberings (sorted, reversed, rotations, "
-        "adjacent transpositions per rank), parse modes and completion orders, and identical to separate-process "
+        "2-rank traces: result bundle of 16 getters identical across numberings (sorted, reversed, rotations, "
+        "adjacent transpositions, every symbol moved to id 0, per rank), parse modes and completion orders, and identical to separate-process "
         "runs under 4 PYTHONHASHSEED values with the real fork pool. non-trivial = numbering or order differs "
         "from the baseline run")
 ASSUMPTIONS = [
@@ -93,6 +93,7 @@ def corpus_trace(k: int, rank: int) -> List[Dict[str, Any]]:
 
 
 CORPUS = list(range(8))
+BUNDLE_PARTS = 8
 
 
 def worlds(tier: str, stats: Dict[str, Any]) -> Iterator[Any]:
@@ -128,8 +129,9 @@ def worlds(tier: str, stats: Dict[str, Any]) -> Iterator[Any]:
                     yield dict(mode="decode", tset=tset, ids=list(ids), plan=plan, sched=sc)
     # (c)
     for k in CORPUS:
-        stats["transitions"] += 1
-        yield dict(mode="bundle", k=k)
+        for part in range(BUNDLE_PARTS):
+            stats["transitions"] += 1
+            yield dict(mode="bundle", k=k, part=part)
     for s in range(b["seeds"]):
         for mp in (0, 1):
             stats["transitions"] += 1
@@ -339,6 +341,8 @@ def check(world) -> Dict[str, Any]:
                 p = ident[:]
                 p[i], p[i + 1] = p[i + 1], p[i]
                 out.append(p)
+            for i in range(1, n):  # every symbol gets the first id (0) once
+                out.append([i] + ident[:i] + ident[i + 1:])
             return out
 
         runs = []
@@ -351,6 +355,7 @@ def check(world) -> Dict[str, Any]:
             for w in (1, 2):
                 runs.append(([list(range(n0)), list(range(n1))], [o, w]))
                 runs.append(([list(range(n0))[::-1], list(range(n1))[1:] + [0]], [o, w]))
+        runs = runs[world.get("part", 0)::BUNDLE_PARTS] if "part" in world else runs
         for perms, sched in runs:
             execs += 1
             got = bundle_mod.bundle(load_with(ranks, plan_for(evl, perms), sched))
@@ -360,7 +365,7 @@ def check(world) -> Dict[str, Any]:
                 viol.append((f"bundle/result-depends-on-{kind}/{'+'.join(diff)}", dict(k=k, perms=perms, sched=sched,
                             base={x: base[x] for x in diff[:2]}, got={x: got.get(x) for x in diff[:2]})))
         errs = sorted(kk for kk, v in base.items() if isinstance(v, str) and v.startswith("EXC:"))
-        return dict(viol=_dedupe(viol), nontrivial=True, outcome=(k, json.dumps(base, sort_keys=True)[:2000]), execs=execs,
+        return dict(viol=_dedupe(viol), nontrivial=True, outcome=(k, world.get("part"), json.dumps(base, sort_keys=True)[:2000]), execs=execs,
                     extra_transitions=execs - 1)
     if mode == "seedrun":
         vseed = int(os.environ.get("VERIF_SEED", "0") or 0)
